@@ -20,7 +20,7 @@ CHECKS = {
          "As C01. Transaction-id uniqueness is per generator instance.", "DESIGN.md §8 C02"),
  "C03": ("T", "exploration", "deterministic simulation: controlled scheduler over real threads (scheduling point before every atomic/map/queue op), seeded schedule strategies, conservation oracle over the recorded history",
          "2-4 caller threads run under a one-at-a-time scheduler that decides every interleaving at the granularity the property states; at quiescence aggregates are compared with the listing and a per-order conservation equation is evaluated from all threads' responses and the step trace. Schedules are sampled (uniform, sticky, PCT, stall, op-boundary), failures replay from the recorded schedule list.",
-         "Sequential consistency; one DashMap/SegQueue call = one atomic step (their linearizability is trusted); a thread holding a map guard is never descheduled, so explored executions are a subset of real ones.", "DESIGN.md §4.1, §6, §8 C03"),
+         "Sequential consistency; one DashMap/SegQueue call = one atomic step (their linearizability is trusted); threads are also descheduled inside map guards (the simulator tracks held shard locks and makes conflicting requests wait), an iteration counts as holding all shards; explored executions are a subset of the real SC executions.", "DESIGN.md §4.1, §6, §8 C03"),
  "C04": ("S", "exploration", "deterministic simulation: seeded sequential histories; priority-stamp monitor over every transaction of every match",
          "Histories rich in partial fills, cancel-then-re-add, same-price amends and replenishment; each transaction is checked against the arrival stamps the property prescribes (keep on partial fill / amend, back on replenish / add).",
          "Orders displaying 0 are exempt (the property does not place them); zero quantities are off in this check.", "DESIGN.md §8 C04"),
